@@ -5,6 +5,8 @@ package worker
 import (
 	"encoding/json"
 	"fmt"
+	"io"
+	"log"
 	"os"
 	"strings"
 	"testing"
@@ -19,6 +21,8 @@ import (
 )
 
 func initProcess() {
+	// net/http logs a stack for every handler the API framework panics out of when a client goes away mid-response
+	log.SetOutput(io.Discard)
 	// what cmd/alertmanager does before app.Run: select the matcher parser mode from the (empty) feature flags
 	l := promslog.NewNopLogger()
 	if ff, err := featurecontrol.NewFlags(l, ""); err == nil {
